@@ -47,6 +47,9 @@ POST_COMMIT_EXEMPT = {
 
 
 def run(prog, R, tier="quick", only_rule=None):
+    # an error path must return: no lock is taken again while it is held (a self-deadlock never returns the error)
+    from rules.props import c06 as _c06
+    _c06.c06n(prog, R, _c06.LockFacts(prog, _c06.CLASSES), rid="C16.i")
     c16a(prog, R)
     c16b(prog, R)
     c16c(prog, R)
